@@ -665,6 +665,13 @@ func (e *SpecEnv) call(c *ECall) Val {
 		return mkBool(fmt.Sprintf("(>= %s %s)", refTerm(v), a.T))
 	case "int", "uint32", "int64", "uint16", "uint8", "uint64":
 		return mkInt(e.eval(c.Args[0]).T)
+	case "substr":
+		// substr(s, lo, hi): the Go expression s[lo:hi] on strings
+		if len(c.Args) != 3 {
+			e.fail("substr(s, lo, hi)")
+		}
+		sv, lo, hi := e.eval(c.Args[0]), e.eval(c.Args[1]), e.eval(c.Args[2])
+		return Val{T: app("str_sub", x.termOf(e.st, sv), lo.T, hi.T), Ty: types.Typ[types.String]}
 	case "min":
 		a, b := e.eval(c.Args[0]), e.eval(c.Args[1])
 		return mkInt(ite(app("<=", a.T, b.T), a.T, b.T))
